@@ -160,6 +160,7 @@ struct slice
 channel_read_map(struct channel* self, struct channel_reader* reader)
 {
     size_t nbytes = 0;
+    int moved = 0;
     lock_acquire(&self->lock);
 
     reader_initialize(self, reader);
@@ -198,6 +199,7 @@ channel_read_map(struct channel* self, struct channel_reader* reader)
         // already been committed there.
         *pos = 0;
         *cycle = self->cycle;
+        moved = 1;
         out = self->data;
         nbytes = self->head;
         reader->pos = self->head;
@@ -212,6 +214,11 @@ channel_read_map(struct channel* self, struct channel_reader* reader)
 
 Finalize:
     lock_release(&self->lock);
+    if (moved && !nbytes) {
+        // The bookmark moved without mapping anything: that may have released
+        // space a writer is waiting for, and no unmap will follow.
+        condition_variable_notify_all(&self->notify_space_available);
+    }
     return (struct slice){ .beg = out, .end = out + nbytes };
 Overflow:
     reader->status = Channel_Error;
